@@ -70,7 +70,7 @@ def classify(res):
 
 
 def verify_contract(c, timeout_ms=30000, jobs=None):
-    res = UnitResult(c.qualname)
+    res = UnitResult(c.key)
     res.model_name = c.model
     res.props = list(c.prop)
     res.trusted = list(c.trusted) + ["assume: " + a for a in c.assume]
